@@ -12,7 +12,9 @@ func c19Doc(i int, symbolic bool) any {
 	if vTier() > 0 || symbolic {
 		c = ndScalarNN()
 	}
-	switch ndChoice(10) {
+	switch ndChoice(11) {
+	case 10: // a document whose top level is a list, with a cross-document $merge next to other keys
+		return []any{map[string]any{"name": "web", "c": c, "$merge": map[string]any{"$match": map[string]any{"id": 2}, "$path": "base"}}, "plain"}
 	case 9: // a $merge map with sibling keys inside a list-valued key
 		return map[string]any{"tmpl": map[string]any{"port": c}, "services": []any{map[string]any{"name": "web", "$merge": "tmpl"}, []any{map[string]any{"$merge": "tmpl", "n": 1}}}}
 	case 7: // a forward cross-document reference into a subtree that itself holds a $merge
